@@ -132,6 +132,15 @@ def run(ctx, driver):
     for c in cases:
         c["stop"] = True
         c.setdefault("flags", {})["disable_analytic_solver"] = True
+    # a quarter as many COMPLETE analyses (analytic solver enabled, nothing cut short): the Jacobian is taken from the system object after
+    # analysis() has split it into sub-systems, as the stiffness tester and MixedIntegrator do
+    full = _shared.gen_cases(ctx, max(8, ctx.n(130, 2500) // 5), stream="systems-full", stop_frac=0.0, extra=_extra,
+                             shapes=["mixed_nonlinear", "numeric_dep_analytic", "analytic_dep_numeric", "chain_to_nonlinear", "higher_order_driven", "fan_out", "numeric_reads_derivative"])
+    for c in full:
+        c["stop"] = False
+        c["after_split"] = True
+        c["poly"] = False
+    cases = cases + full
     results = _shared.run_full(ctx, cases, timeout=40)
     for case, res in zip(cases, results):
         ctx.evaluations += 1
@@ -141,6 +150,8 @@ def run(ctx, driver):
             ctx.count("no_jacobian:" + str((res.get("error") or {}).get("type") or res.get("values_error", "")[:40]))
             continue
         ctx.count("jacobian_cases")
+        if case.get("after_split"):
+            ctx.count("jacobian_after_complete_analysis")
         x = res["x"]
         nz = any(v != "0" for row in res["values"]["A"] for v in row)
         if (nz and len(x) >= 2) or any(v != "0" for v in res["values"]["c"]):
